@@ -66,7 +66,7 @@ func (l *ListSearch) updateMajor(operation chan<- Task, task Task) {
 	if task.F < l.bestF {
 		l.bestF = task.F
 		l.bestIdx = task.ID
-	} else {
+	} else if l.bestIdx >= 0 {
 		task.F = l.bestF
 		mat.Row(task.X, l.bestIdx, l.Locs)
 	}
